@@ -65,8 +65,9 @@ def run_case(rep, label, fn, tier="P", allowed_exceptions=(), max_paths=2000, mi
             # A canary (deliberately wrong clause) that is *not* refuted means the pipeline proves anything
             # (vacuous path condition) -- unless real clauses of the same case are refuted, in which case the
             # code under test has simply changed into what the canary says and the violation is reported below.
-            if a["bad"] or not any_real_refuted:
-                rep.canary(f"{label}: {name}", bool(a["bad"]))
+            if a["bad"] or a["und"] or not any_real_refuted:
+                # 'undecided' is acceptable for a canary: the point is that it is not *discharged*
+                rep.canary(f"{label}: {name}", bool(a["bad"]) or a["und"] > 0)
             else:
                 rep.canaries_total += 1
             continue
